@@ -1,6 +1,170 @@
-(* C13 - stub, replaced below *)
-From Coq Require Import List ZArith Bool.
-From YV Require Import Common.Corr Model.Queries Model.Streams.
+(* C13 - Collection and query functions agree with their reference model.
+   Property theorems only; every proof is `exact <lemma>`.  The reference model is
+   Model/Queries.v (list semantics) and Model/Streams.v (the lazy algebra the yaql
+   functions actually build); both are tied to queries.py / collections.py by the
+   correspondence of harness/props/c13.py. *)
+From Coq Require Import List ZArith Bool Arith Permutation Sorted.
+From YV Require Import Common.Corr Model.Queries Model.Streams
+  Lemmas.QueriesLaws Lemmas.QueriesOrder Lemmas.QueriesGroup Lemmas.QueriesInsert
+  Lemmas.StreamsSteps Lemmas.StreamsPipeline.
 Import ListNotations.
-Theorem C13_stub : forall (l : list val), rev (rev l) = l.
+
+(* orderBy / thenBy with any ascending/descending flags: the output is a
+   permutation of the input, sorted for the lexicographic key preorder, and stable
+   (every class of key-equivalent elements keeps its input order) ... *)
+Theorem C13_order_by : forall (keys : list okey) (l : list val),
+  Permutation (order_by_l keys l) l /\
+  StronglySorted (fun a b => keys_lt keys b a = false) (order_by_l keys l) /\
+  (forall z, filter (keys_equiv keys z) (order_by_l keys l) = filter (keys_equiv keys z) l).
+Proof. exact order_by_spec. Qed.
+
+(* ... hence equal to ANY stable sort of the input, CPython's `sorted` in particular *)
+Theorem C13_order_by_unique : forall (keys : list okey) (l l' : list val),
+  Permutation l' l ->
+  StronglySorted (fun a b => keys_lt keys b a = false) l' ->
+  (forall z, filter (keys_equiv keys z) l' = filter (keys_equiv keys z) l) ->
+  l' = order_by_l keys l.
+Proof. exact order_by_unique. Qed.
+
+(* the comparator is lexicographic: a deciding key decides alone and in its own
+   direction (descending flag honoured), a tie defers to the next key *)
+Theorem C13_comparator : forall f asc r a b,
+  (val_ltb (apply f a) (apply f b) = true -> compare_keys ((f, asc) :: r) a b = if asc then (-1)%Z else 1%Z) /\
+  (val_ltb (apply f a) (apply f b) = false -> val_gtb (apply f a) (apply f b) = false ->
+   compare_keys ((f, asc) :: r) a b = compare_keys r a b).
+Proof. exact (fun f asc r a b => conj (compare_keys_first f asc r a b) (compare_keys_tie f asc r a b)). Qed.
+
+(* groupBy: keys in first-occurrence order and pairwise different; every group is
+   the filter of its key in input order (through the value selector); the groups'
+   members together are a rearrangement of the input *)
+Theorem C13_group_by : forall (k : lam) (value : val -> val) (l : list val),
+  let g := group_by_l val_eqb (apply k) value l in
+  map fst g = distinct_l val_eqb (fun x => x) (map (apply k) l) /\
+  ForallOrdPairs (fun a b => val_eqb b a = false) (map fst g) /\
+  (forall kk vs, In (kk, vs) g -> vs = map value (filter (fun x => val_eqb (apply k x) kk) l)) /\
+  Permutation (concat (map (fun kk => filter (fun x => val_eqb (apply k x) kk) l) (map fst g))) l.
+Proof.
+  exact (fun k value l => group_by_props val_eqb (apply k) value val_eqb_refl
+           (fun a b => val_eqb_sym a b) (fun a b c => val_eqb_trans a b c) l).
+Qed.
+
+(* Python equality on the modelled values (True == 1, tuples never equal lists) is
+   an equivalence: what distinct / groupBy / indexOf / sets rely on *)
+Theorem C13_equality_is_equivalence :
+  (forall a, val_eqb a a = true) /\ (forall a b, val_eqb a b = val_eqb b a) /\
+  (forall a b c, val_eqb a b = true -> val_eqb b c = true -> val_eqb a c = true).
+Proof. exact (conj val_eqb_refl (conj (fun a b => val_eqb_sym a b) (fun a b c => val_eqb_trans a b c))). Qed.
+
+(* ---- the algebraic laws ------------------------------------------------------ *)
+Theorem C13_where_where : forall (p q : val -> bool) l,
+  where_l p (where_l q l) = where_l (fun x => q x && p x) l.
+Proof. exact where_where. Qed.
+
+Theorem C13_select_select : forall (f g : val -> val) l,
+  select_l f (select_l g l) = select_l (fun x => f (g x)) l.
+Proof. exact (fun f g l => select_select f g l). Qed.
+
+Theorem C13_take_skip : forall n (l : list val), take_l n l ++ skip_l n l = l /\ length (take_l n l) = Nat.min n (length l).
+Proof. exact (fun n l => conj (take_skip n l) (take_length n l)). Qed.
+
+(* insert: the tuple overload for EVERY position, the iterator overload for the non-negative ones *)
+Theorem C13_insert_length : forall (l : list val) pos v,
+  length (list_insert_l l pos v) = S (length l) /\
+  ((0 <= pos)%Z -> length (iter_insert_l l pos v) = S (length l)).
+Proof.
+  exact (fun l pos v => conj (list_insert_length l pos v)
+    (fun H => eq_trans (iter_insert_length l pos v)
+       (eq_trans (f_equal (fun b : bool => (length l + (if b then 1 else 0))%nat) (proj2 (Z.leb_le 0 pos) H))
+                 (Nat.add_1_r (length l))))).
+Qed.
+
+Theorem C13_delete_insert : forall (l : list val) i v, (0 <= i <= Z.of_nat (length l))%Z ->
+  delete_l (list_insert_l l i v) i 1 = l /\ delete_l (iter_insert_l l i v) i 1 = l.
+Proof. exact (fun l i v H => conj (delete_list_insert l i v H) (delete_iter_insert l i v H)). Qed.
+
+Theorem C13_insert_agree : forall (l : list val) pos v, (0 <= pos)%Z -> iter_insert_l l pos v = list_insert_l l pos v.
+Proof. exact insert_agree_nonneg. Qed.
+
+(* F18 (open known finding): the full statement "both overloads of insert agree for
+   every position" is FALSE of the code: for a negative position the generator never
+   reaches `i == position` nor `position > i` and drops the value, while list.insert
+   counts from the end *)
+Theorem C13_insert_negative_refuted :
+  (forall (l : list val) pos v, (pos < 0)%Z -> iter_insert_l l pos v = l) /\
+  exists (l : list val) pos v, iter_insert_l l pos v <> list_insert_l l pos v.
+Proof.
+  exact (conj (fun l pos v H => iter_insert_negative l pos v H)
+    (ex_intro _ [VInt 1] (ex_intro _ (-1)%Z (ex_intro _ (VInt 9)
+       (fun H : iter_insert_l [VInt 1] (-1) (VInt 9) = list_insert_l [VInt 1] (-1) (VInt 9) =>
+          eq_ind (length (iter_insert_l [VInt 1] (-1) (VInt 9))) (fun n => match n with 1 => True | _ => False end) I
+                 _ (f_equal (@length val) H)))))).
+Qed.
+
+Theorem C13_reverse : forall l : list val, rev (rev l) = l.
 Proof. exact (@rev_involutive val). Qed.
+
+Theorem C13_distinct : forall (k : val -> val) l,
+  distinct_l val_eqb k (distinct_l val_eqb k l) = distinct_l val_eqb k l /\
+  subseq (distinct_l val_eqb k l) l /\
+  ForallOrdPairs (fun a b => val_eqb (k b) (k a) = false) (distinct_l val_eqb k l).
+Proof.
+  exact (fun k l => conj (distinct_idempotent val_eqb k l) (conj (distinct_subseq val_eqb k l)
+           (proj1 (distinct_from_fresh val_eqb k [] l)))).
+Qed.
+
+Theorem C13_zip_length : forall (a b : list val), length (zip_l a b) = Nat.min (length a) (length b).
+Proof. exact (fun a b => zip_length a b). Qed.
+
+Theorem C13_split_at : forall (l : list val) idx, fst (split_at_l l idx) ++ snd (split_at_l l idx) = l.
+Proof. exact split_at_concat. Qed.
+
+Theorem C13_slice : forall n (l : list val), (0 < n)%nat ->
+  concat (chunks_l n l) = l /\
+  Forall (fun c => (1 <= length c <= n)%nat) (chunks_l n l) /\
+  Forall (fun c => length c = n) (removelast (chunks_l n l)).
+Proof. exact (fun n l H => conj (chunks_concat n l H) (chunks_lengths n l H)). Qed.
+
+Theorem C13_accumulate_aggregate : forall (f : val -> val -> val) l d seed,
+  option_map (fun a => last a d) (accumulate_l f l) = aggregate_l f l /\
+  last (accumulate_seed f seed l) seed = aggregate_seed f seed l.
+Proof. exact (fun f l d seed => conj (accumulate_last f l d) (accumulate_seed_last f seed l)). Qed.
+
+Theorem C13_index_of : forall (p : val -> bool) l,
+  ((index_from 0 p l = (-1)%Z /\ forallb (fun x => negb (p x)) l = true) \/
+   (exists k x, index_from 0 p l = Z.of_nat k /\ nth_error l k = Some x /\ p x = true /\
+                forallb (fun y => negb (p y)) (firstn k l) = true)) /\
+  ((last_index_from 0 p (-1) l = (-1)%Z /\ forallb (fun x => negb (p x)) l = true) \/
+   (exists k x, last_index_from 0 p (-1) l = (0 + Z.of_nat k)%Z /\ nth_error l k = Some x /\ p x = true /\
+                forallb (fun y => negb (p y)) (skipn (S k) l) = true)).
+Proof. exact (fun p l => conj (index_of_spec p l) (last_index_from_spec p l 0 (-1))). Qed.
+
+(* ---- streaming == list semantics ------------------------------------------------ *)
+(* every pipeline of select/where/skip/take/takeWhile/skipWhile/enumerate/memorize over a
+   finite source: consuming the lazy object once yields exactly the list semantics *)
+Theorem C13_stream_is_list : forall (ops : list sop) (l : list val) (s : st),
+  exists fuel s', drain fuel s (build_all ops (OfList l)) = (s', Ok (outs_all ops l)).
+Proof. exact (fun ops l s => denotes_drain _ _ (pipeline_denotes ops _ _ (oflist_denotes l)) s). Qed.
+
+(* the same for the binary / seeded operators, for any inner iterators *)
+Theorem C13_stream_is_list_append : forall i j l1 l2, Denotes i l1 -> Denotes j l2 -> Denotes (Chain i j) (l1 ++ l2).
+Proof. exact denotes_chain. Qed.
+
+Theorem C13_stream_is_list_accumulate : forall f sd i l, Denotes i l ->
+  Denotes (AccStart f (Some sd) i) (accumulate_seed (apply2 f) sd l).
+Proof. exact denotes_accumulate_seed. Qed.
+
+(* non-vacuity: the model at work on concrete inputs *)
+Example C13_example_order :
+  order_by_l [(LMod 2, false); (LId, true)] [VInt 3; VInt 2; VInt 1; VInt 4; VInt 3] = [VInt 1; VInt 3; VInt 3; VInt 2; VInt 4].
+Proof. vm_compute. reflexivity. Qed.
+
+Example C13_example_pipeline :
+  snd (eval_case (SrcIter [VInt 1; VInt 2; VInt 3; VInt 4]) [SWhere (LGt 1); SSelect (LMul 2); SInsert (-1) (VInt 9)])
+  = OVal (VList false [VInt 4; VInt 6; VInt 8]) /\
+  snd (eval_case (SrcTuple [VInt 1; VInt 2; VInt 3]) [SInsert (-1) (VInt 9)])
+  = OVal (VList false [VInt 1; VInt 2; VInt 9; VInt 3]).
+Proof. vm_compute. split; reflexivity. Qed.
+
+Print Assumptions C13_order_by.
+Print Assumptions C13_group_by.
+Print Assumptions C13_stream_is_list.
